@@ -444,6 +444,22 @@ def _escapes(loop: ast.For, names, root) -> bool:
     return bool(found)
 
 
+def _one_sided_rebind(st: ast.If, acc, mapping, loop):
+    """(x, value, positive) for `if c: x = A` / `if c: pass else: x = A` where x is bound before (loop target name or temporary)"""
+    body = [b for b in st.body if not isinstance(b, ast.Pass)]
+    orelse = [b for b in st.orelse if not isinstance(b, ast.Pass)]
+    if body and orelse or not (body or orelse):
+        return None
+    blk = body or orelse
+    if len(blk) != 1 or not (isinstance(blk[0], ast.Assign) and len(blk[0].targets) == 1 and isinstance(blk[0].targets[0], ast.Name)):
+        return None
+    x = blk[0].targets[0].id
+    bound = set(mapping) | ({loop.target.id} if isinstance(loop.target, ast.Name) else {e.id for e in getattr(loop.target, "elts", []) if isinstance(e, ast.Name)})
+    if x == acc or x not in bound:
+        return None
+    return x, blk[0].value, bool(body)
+
+
 def loops_to_comps(body: list[ast.stmt], total: dict[str, int] | None = None) -> list[ast.stmt]:
     """accumulate loops -> comprehensions (list.append / dict[k] = v / set.add), one level"""
     out: list[ast.stmt] = []
@@ -491,6 +507,13 @@ def loops_to_comps(body: list[ast.stmt], total: dict[str, int] | None = None) ->
                     mapping[st.body[0].targets[0].id] = ast.IfExp(test=_Subst(mapping).visit(copy.deepcopy(st.test)),
                                                                    body=_Subst(mapping).visit(copy.deepcopy(st.body[0].value)),
                                                                    orelse=_Subst(mapping).visit(copy.deepcopy(st.orelse[0].value)))
+                elif isinstance(st, ast.If) and j < len(stmts) - 1 and _one_sided_rebind(st, acc, mapping, loop) is not None:
+                    # if c: x = A     (x the loop variable or an earlier temporary)   ->   x := A if c else x
+                    x_, val_, positive = _one_sided_rebind(st, acc, mapping, loop)
+                    prev = mapping.get(x_, ast.Name(id=x_, ctx=ast.Load()))
+                    new_v = _Subst(mapping).visit(copy.deepcopy(val_))
+                    test_ = _Subst(mapping).visit(copy.deepcopy(st.test))
+                    mapping[x_] = ast.IfExp(test=test_, body=new_v if positive else copy.deepcopy(prev), orelse=copy.deepcopy(prev) if positive else new_v)
                 elif j == len(stmts) - 1:
                     inner = st
                     if isinstance(st, ast.If) and not st.orelse and len(st.body) == 1:
